@@ -83,7 +83,7 @@ func (s *storeRun) afterMutation(op Op, prev *specDoc) {
 		rc := &RealColl{Path: path}
 		r := rc.New(1, 0, 0, 0)
 		m1 := c.drv2.Send("disk " + hexW(img))
-		m2 := c.drv2.Send(fmt.Sprintf("new 1 0 0 0 %s", hexW([]byte(path))))
+		m2 := c.drv2.SendNew(1, 0, 0, 0, path)
 		if m1 != "ok" || strings.Fields(m2)[0] != r {
 			s.tie("recovery ("+where+")", m2, r)
 			os.Remove(path)
@@ -164,7 +164,7 @@ func (s *storeRun) afterMutation(op Op, prev *specDoc) {
 		c.drv2.Send("close")
 		rc.Close()
 		r = rc.New(1, 0, 0, 0)
-		m2 = c.drv2.Send(fmt.Sprintf("new 1 0 0 0 %s", hexW([]byte(path))))
+		m2 = c.drv2.SendNew(1, 0, 0, 0, path)
 		if strings.Fields(m2)[0] != r {
 			s.tie("second reopen ("+where+")", m2, r)
 		} else if r == "ok" {
